@@ -148,10 +148,13 @@ C17_QUERIES = [
      "(not (<= (abs (- (* (f126 f) 32000000) (* f 33554432))) 16000000))"),
     ("sx127x_no_panic", "f127", "freq_to_pll_step / pll_step_to_freq never fail a check",
      "(not (and (f127_ok f) (g127_ok (f127 f))))"),
-    ("sx127x_floor", "f127", "word * Fxtal <= f * 2^19 < (word + 1) * Fxtal  (within one 61.04 Hz step)",
-     "(not (and (<= (* (f127 f) 32000000) (* f 524288)) (< (* f 524288) (* (+ (f127 f) 1) 32000000))))"),
-    ("sx127x_roundtrip", "g127", "0 <= f - pll_step_to_freq(freq_to_pll_step(f)) <= 62 (one 61.04 Hz step plus the truncation of the inverse)",
-     "(not (and (<= (g127 (f127 f)) f) (<= (- f (g127 (f127 f))) 62)))"),
+    # C17 states "within one synthesiser step (SX127x: under 62 Hz)".  The first version of these
+    # two queries demanded the *floor* (what the driver did at the time); that is more than the
+    # property states and was corrected when the C13 fix made the driver round to nearest.
+    ("sx127x_within_step", "f127", "|word * Fxtal - f * 2^19| < Fxtal  (within one 61.04 Hz step)",
+     "(not (< (abs (- (* (f127 f) 32000000) (* f 524288))) 32000000))"),
+    ("sx127x_roundtrip", "g127", "|f - pll_step_to_freq(freq_to_pll_step(f))| <= 62 (one 61.04 Hz step plus the truncation of the inverse)",
+     "(not (<= (abs (- f (g127 (f127 f)))) 62))"),
 ]
 
 
@@ -164,9 +167,9 @@ def check_prop_python(qid, f, nat):
         return w != "PANIC" and abs(w * XTAL - f * (1 << 25)) <= XTAL // 2
     if qid == "sx127x_no_panic":
         return nat.get(("f127", f)) != "PANIC"
-    if qid == "sx127x_floor":
+    if qid == "sx127x_within_step":
         w = nat.get(("f127", f))
-        return w != "PANIC" and w * XTAL <= f * (1 << 19) < (w + 1) * XTAL
+        return w != "PANIC" and abs(w * XTAL - f * (1 << 19)) < XTAL
     return True
 
 
@@ -248,7 +251,7 @@ def job_c17_pll(tier):
                             w = n2.get(("f127", fval))
                             n3 = native_eval(scratch, [w], logdir) if w != "PANIC" else {}
                             g = n3.get(("g127", w))
-                            ok_native = g != "PANIC" and g is not None and 0 <= fval - g <= 62
+                            ok_native = g != "PANIC" and g is not None and abs(fval - g) <= 62
                         else:
                             ok_native = check_prop_python(qid, fval, n2)
                         res["validated"] += 1
@@ -415,7 +418,186 @@ def job_c16_symbols(tier):
     return job
 
 
+# ---- C13: Semtech's reference driver (E3: CBMC on the C sources) and PLL kernel equivalence (E2) --
+def _cbmc_props(out):
+    """-> list of (name, desc, 'SUCCESS'|'FAILURE'|...) from CBMC's plain-text result listing"""
+    return [(m.group(1), m.group(2), m.group(3)) for m in re.finditer(r"^\[([^\]]+)\] (?:line \d+ )?(.*): (SUCCESS|FAILURE|UNKNOWN|ERROR)\s*$", out, re.M)]
+
+
+def job_c13_reference(chip, tier):
+    import c13gen
+    from concurrent.futures import ThreadPoolExecutor
+
+    def job(logdir):
+        t0 = time.time()
+        ops = c13gen.ops_for(chip)
+        entry = dict(id="c13_reference_%s" % chip, file="lib/c13gen.py", anchor="SWL2001 %s_driver/src/%s.c (cargo registry, smtc-modem-cores-sys)" % (chip, chip),
+                     build="cbmc-c", bounds="%d operations of the byte specification, every parameter value of each (see the Rust-side harnesses c13_%s_*), arbitrary chip answers; --unwind 13 with unwinding assertions" % (len(ops), chip),
+                     assumes=["HAL = recording stubs (write/read log the MOSI bytes, reads answer arbitrary bytes)",
+                              "a failure on this side means the specification and the reference disagree: reported as inconclusive, it cannot be a defect of lora-rs"],
+                     encodes=["%s.c of Semtech's reference driver, every function the specification calls" % chip],
+                     outside=["GFSK/LR-FHSS paths of the reference", "HAL timing (busy line, reset)"])
+        res = dict(entry=entry, verdict="held", queries=0, solver_time_s=0.0, validated=0, replay=None)
+        try:
+            src = c13gen.swl_dir(chip)
+            cfile = os.path.join(logdir, "c13_%s_harness.c" % chip)
+            open(cfile, "w").write(c13gen.c_harness(chip))
+
+            def run(o):
+                backs = [["--z3"], ["--cvc5"]] if o.get("smt") else [["--sat-solver", "cadical"]]
+                outs = []
+                for b in backs:
+                    cmd = ["cbmc", cfile, "-I" + src, "--function", "h_" + o["id"], "--unwind", "13", "--unwinding-assertions"] + c13gen.C_DEFINES.get(chip, []) + b
+                    rc, out, dt = _run(cmd, timeout=300)
+                    open(os.path.join(logdir, "c13_%s_%s%s.log" % (chip, o["id"], b[0])), "w").write(out)
+                    outs.append((rc, out, dt))
+                return o, outs
+            with ThreadPoolExecutor(max_workers=6) as ex:
+                results = list(ex.map(run, ops))
+            bad, per = [], []
+            for o, outs in results:
+                for rc, out, dt in outs:
+                    props = _cbmc_props(out)
+                    res["queries"] += len(props)
+                    res["solver_time_s"] += dt
+                    fails = [p for p in props if p[2] != "SUCCESS"]
+                    witness = [p for p in fails if "witness: end of" in p[1] and p[2] == "FAILURE"]
+                    other = [p for p in fails if p not in witness]
+                    if not props or "VERIFICATION" not in out:
+                        bad.append("%s: CBMC gave no verdict (rc=%s): %s" % (o["id"], rc, out[-200:].replace("\n", " ")))
+                    elif len(witness) != 1:
+                        bad.append("%s: reachability witness not violated (harness vacuous?)" % o["id"])
+                    elif other:
+                        bad.append("%s: %s" % (o["id"], "; ".join("%s %s" % (p[1], p[2]) for p in other[:4])))
+                    per.append(dict(op=o["id"], properties=len(props), time_s=round(dt, 2)))
+            entry["operations"] = per
+            if bad:
+                res["verdict"] = "inconclusive"
+                entry["reason"] = "reference side of the C13 byte specification: " + " | ".join(bad)[:1500]
+        except (lrv.Inconclusive, RuntimeError) as e:
+            res["verdict"] = "inconclusive"
+            entry["reason"] = str(e)
+        entry["verdict"] = res["verdict"]
+        entry.setdefault("reason", "")
+        entry["cbmc_checks"] = res["queries"]
+        entry["covers"] = "%d/%d" % (len(entry.get("operations", [])), len(ops))
+        entry["solver_time_s"] = round(res["solver_time_s"], 2)
+        entry["wall_s"] = round(time.time() - t0, 1)
+        return res
+    return job
+
+
+def job_c13_pll(tier):
+    """Rust PLL-word kernels (MIR) == Semtech's C kernels (LLVM IR) for every frequency"""
+    import c13gen, ll2smt
+
+    def job(logdir):
+        t0 = time.time()
+        entry = dict(id="c13_pll_equiv", file="lib/engines.py, lib/ll2smt.py, lib/mir2smt.py", anchor="lora-phy/src/sx126x/mod.rs, lora-phy/src/sx127x/mod.rs vs SWL2001 sx126x.c, sx127x.c",
+                     build="mir+llvm-ir", bounds="every frequency %d..=%d Hz as one integer variable; z3 and cvc5 must agree" % (FMIN, FMAX),
+                     assumes=["both translators are validated on every run against the natively compiled functions on sample inputs"],
+                     encodes=["sx126x::Sx126x::convert_freq_in_hz_to_pll_step", "sx127x::freq_to_pll_step", "sx126x_convert_freq_in_hz_to_pll_step (C)", "sx127x_convert_freq_in_hz_to_pll_step (C)"],
+                     outside=["frequencies outside 137..1020 MHz"])
+        res = dict(entry=entry, verdict="held", queries=0, solver_time_s=0.0, validated=0, replay=None)
+        scratch = lrv.make_scratch("C13-mir")
+        try:
+            text, dt = mir_dump(scratch, "lora-phy", logdir)
+            mod = mir2smt.Module(text)
+            sx126 = [n for n in mod.funcs if n.startswith("sx126x::") and n.endswith("::convert_freq_in_hz_to_pll_step")]
+            if len(sx126) != 1:
+                raise lrv.Inconclusive("sx126x convert_freq_in_hz_to_pll_step not found exactly once in the MIR dump")
+            defs = [mir2smt.define_fun(mod, sx126[0], "f126"), mir2smt.define_fun(mod, "freq_to_pll_step", "f127")]
+            cdefs = []
+            cnat = {}
+            samples = [FMIN, FMAX, 433_175_000, 868_100_000, 868_300_000, 869_525_000, 902_300_000, 903_900_000, 915_000_000,
+                       923_300_000, 927_500_000, 470_300_000, 999_999_999] + [863_000_000 + 100 * k * 997 for k in range(40)]
+            for chip, fn, smt in (("sx126x", "sx126x_convert_freq_in_hz_to_pll_step", "c126"), ("sx127x", "sx127x_convert_freq_in_hz_to_pll_step", "c127")):
+                src = c13gen.swl_dir(chip)
+                cfile = os.path.join(src, chip + ".c")
+                extra = c13gen.C_DEFINES.get(chip, [])
+                ll = ll2smt.emit_ir(cfile, [src], os.path.join(logdir, chip + ".ll"), extra)
+                cdefs.append(ll2smt.translate(ll, fn, smt))
+                cnat[smt] = ll2smt.native_eval_c(cfile, [src], fn, samples, logdir, extra)
+            prelude = "(set-logic ALL)\n" + "".join(d["text"] for d in defs) + "".join(d["text"] for d in cdefs)
+            entry["translated"] = [dict(fn=d["name"], paths=d["paths"], obligations=d["obligations"], mir_statements=d["steps"]) for d in defs] + \
+                                  [dict(fn=d["name"], llvm_instructions=d["steps"]) for d in cdefs]
+            # translator validation, both sides
+            nat = native_eval(scratch, samples, logdir)
+            q = prelude
+            for x in samples:
+                q += "(push)(declare-const r1 Int)(declare-const r2 Int)(declare-const r3 Int)(declare-const r4 Int)(assert (= r1 (f126 %d)))(assert (= r2 (f127 %d)))(assert (= r3 (c126 %d)))(assert (= r4 (c127 %d)))(check-sat)(get-value (r1 r2 r3 r4))(pop)\n" % (x, x, x, x)
+            out, dt = solve(q, SOLVERS[0], 300)
+            ans = parse_answers(out)
+            if len(ans) != len(samples) or any(a[0] != "sat" for a in ans):
+                raise lrv.Inconclusive("translator validation: solver did not evaluate the encoding: " + out[:300])
+            badv = []
+            for x, a in zip(samples, ans):
+                enc = {int(k): int(v) for k, v in re.findall(r"\(r(\d) (\d+)\)", a[1])}
+                want = {1: nat.get(("f126", x)), 2: nat.get(("f127", x)), 3: cnat["c126"][x], 4: cnat["c127"][x]}
+                if enc != want:
+                    badv.append((x, enc, want))
+                res["validated"] += 4
+            if badv:
+                raise lrv.Inconclusive("translator validation FAILED (encoding disagrees with compiled code): %r" % badv[:3])
+            verdicts = []
+            for qid, rs, cs in (("sx126x_pll_word_equal", "f126", "c126"), ("sx127x_pll_word_equal", "f127", "c127")):
+                q = prelude + "(declare-const f Int)\n(assert (and (>= f %d) (<= f %d)))\n(assert (not (and (%s_ok f) (= (%s f) (%s f)))))\n(check-sat)\n(get-value (f))\n" % (FMIN, FMAX, rs, rs, cs)
+                r = {}
+                for solver in SOLVERS:
+                    out, dt = solve(q, solver, 240 if tier == "quick" else 1800)
+                    res["solver_time_s"] += dt
+                    a = parse_answers(out)
+                    r[solver] = (a[0] if a else ["error", out[:200]]) + [round(dt, 2)]
+                    res["queries"] += 1
+                verdicts.append({"query": qid, SOLVERS[0]: r[SOLVERS[0]][0], SOLVERS[1]: r[SOLVERS[1]][0], SOLVERS[0] + "_s": r[SOLVERS[0]][2], SOLVERS[1] + "_s": r[SOLVERS[1]][2]})
+                kinds = {r[SOLVERS[0]][0], r[SOLVERS[1]][0]}
+                if kinds == {"unsat"}:
+                    continue
+                if "sat" in kinds:
+                    model = r[SOLVERS[0]][1] if r[SOLVERS[0]][0] == "sat" else r[SOLVERS[1]][1]
+                    m = re.search(r"\(f (\d+)\)", model)
+                    fval = int(m.group(1)) if m else None
+                    if fval is not None:
+                        n2 = native_eval(scratch, [fval], logdir)
+                        chip = "sx126x" if rs == "f126" else "sx127x"
+                        src = c13gen.swl_dir(chip)
+                        c2 = ll2smt.native_eval_c(os.path.join(src, chip + ".c"), [src], chip + "_convert_freq_in_hz_to_pll_step", [fval], logdir, c13gen.C_DEFINES.get(chip, []))
+                        res["validated"] += 1
+                        if n2.get((rs, fval)) != c2[fval]:
+                            rdir = os.path.join(lrv.VERIF, "replays", "C13")
+                            os.makedirs(rdir, exist_ok=True)
+                            rp = os.path.join(rdir, "%s.json" % qid)
+                            json.dump(dict(query=qid, frequency_hz=fval, rust=str(n2.get((rs, fval))), reference=c2[fval]), open(rp, "w"), indent=1)
+                            res["verdict"] = "violated"
+                            res["replay"] = rp
+                            entry["reason"] = "C13: PLL word for f = %d Hz: Rust driver %s, reference driver %d (both compiled and run natively)" % (fval, n2.get((rs, fval)), c2[fval])
+                            break
+                    res["verdict"] = "inconclusive"
+                    entry["reason"] = "solver model for %s did not reproduce natively (f=%s)" % (qid, fval)
+                    break
+                res["verdict"] = "inconclusive"
+                entry["reason"] = "query %s: %r" % (qid, r)
+                break
+            entry["queries"] = verdicts
+        except (lrv.Inconclusive, mir2smt.Unsupported, ll2smt.Unsupported, RuntimeError) as e:
+            res["verdict"] = "inconclusive"
+            entry["reason"] = str(e)
+        finally:
+            shutil.rmtree(scratch, ignore_errors=True)
+        entry["verdict"] = res["verdict"]
+        entry.setdefault("reason", "")
+        entry["cbmc_checks"] = res["queries"]
+        entry["covers"] = "n/a"
+        entry["solver_time_s"] = round(res["solver_time_s"], 2)
+        entry["wall_s"] = round(time.time() - t0, 1)
+        return res
+    return job
+
+
 def jobs_for(prop, tier):
+    if prop == "C13":
+        import c13gen
+        return [job_c13_reference(chip, tier) for chip in c13gen.CHIPS] + [job_c13_pll(tier)]
     if prop == "C17":
         return [job_c17_pll(tier)]
     if prop == "C16":
